@@ -24,6 +24,10 @@ History format (JSON-able, self-contained, replayable):
     ['Event', kind, obj, etype(, data)]  real publish() at the current clock;
                                          etype 'finished' is terminal: writes
                                          /finished/<inst> and unschedules
+    ['Stale', inst, etype]               a STALE terminal event: published (real publish())
+                                         by a server that does not own the placement, so
+                                         /finished/<inst> is written and /scheduled/<inst>
+                                         stays - finished AND scheduled, a legal state
     ['Archive', kind, batch, expiry_s, cut, inject]
                                          cut = k: crash at the k-th write (0: none)
                                          inject = [[phase, j, step], ...]: env
@@ -66,6 +70,7 @@ from treadmill.trace.server import zk as server_zk  # noqa: E402
 
 T0 = 1500000000          # epoch second of model time 0 (exact in a double with ms fractions of .25)
 HOST = 'node1'
+STALE_HOST = 'node2'     # publishes stale events: owns no placement
 KINDS = ('trace', 'finished', 'server')
 ROOT = {'trace': z.TRACE, 'finished': z.FINISHED, 'server': z.SERVER_TRACE}
 HIST = {'trace': z.TRACE_HISTORY, 'finished': z.FINISHED_HISTORY, 'server': z.SERVER_TRACE_HISTORY}
@@ -131,7 +136,11 @@ class World:
             self.env.create(z.path.scheduled(inst), b'{}', makepath=True)
             self.env.create(z.path.placement(HOST, inst), b'', makepath=True)
             out['newsched'].append(inst)
-        elif name == 'Event':
+        elif name in ('Event', 'Stale'):
+            host = HOST
+            if name == 'Stale':
+                # another server, which has no /placement/<host>/<inst> node
+                step, host = ['Event', 'trace', step[1], step[2]], STALE_HOST
             _, kind, obj, etype = step[:4]
             tag = str(step[4]) if len(step) > 4 else 'uniq1'
             self.universe.add(obj)
@@ -145,11 +154,11 @@ class World:
                     # the event node takes the millisecond before, so that the
                     # /finished node's mtime is the clock value itself
                     self.now_ms -= 1
-                with mock.patch.object(app_zk, '_HOSTNAME', HOST):
+                with mock.patch.object(app_zk, '_HOSTNAME', host):
                     app_zk.publish(self.env, when, obj, etype, data, None)
                 if terminal:
                     self.now_ms += 1
-                out['added']['trace'].append('%s,%s,%s,%s,%s' % (obj, when, HOST, etype, data))
+                out['added']['trace'].append('%s,%s,%s,%s,%s' % (obj, when, host, etype, data))
                 fin1 = self._finished_table()
                 out['added']['finished'] += sorted(n for n in fin1 if fin1[n] != fin0.get(n))
                 out['touched'] += sorted(n for n in fin1 if n in fin0 and fin1[n] != fin0[n])
